@@ -180,7 +180,13 @@ func (d *Devmod) Validate() error {
 }
 
 func (d *Devmod) writeModuleMessages(modules []string, mtu uint16, w *UnchunkWriter) error {
+	// The owner service decodes every devmod:modules value as a whole, so a
+	// chunk must not be split across ServiceInfo messages: each chunk starts a
+	// new message, which also makes the full MTU available to it.
 	writeChunk := func(chunk DevmodModulesChunk) error {
+		if err := w.ForceNewMessage(); err != nil {
+			return err
+		}
 		if err := w.NextServiceInfo(devmodModuleName, "modules"); err != nil {
 			return err
 		}
@@ -191,11 +197,6 @@ func (d *Devmod) writeModuleMessages(modules []string, mtu uint16, w *UnchunkWri
 		return err
 	}
 	if err := cbor.NewEncoder(w).Encode(len(modules)); err != nil {
-		return err
-	}
-
-	// Start a new message so that full MTU is available
-	if err := w.ForceNewMessage(); err != nil {
 		return err
 	}
 
